@@ -112,13 +112,12 @@ fields, `repeat`, every option), under the side conditions `Visit.Agree`:
 
 * lexical ones, true of every tree the parser produces (a basic-type token is one of the 21 spellings of the grammar, a pad
   character is `'0'`, `' '` or `'\x00'`), and "a checksum field has a scalar type";
-* ONE THAT EXCLUDES A GENUINE DISCREPANCY between the readings, witnessed below by a kernel-evaluated example: an option given
-  as a quoted string (`LittleEndian = "true";`): the visitor strips the quotes (`strings.Trim`), `specOf` does not and falls
-  back to the default.
+* the value of `FixedStringPadChar` is not the raw-NUL spelling (only a quoted string holding a NUL character can be).
 
-(A second discrepancy found while proving this - a checksum field with a written type that is also named after a MetaData
-entry took the entry's type in the visitor and the written one in `specOf` - is gone: the written type now wins in the Go
-code and in `Visit.metaTypeOf`.)
+(Two discrepancies found while proving this are gone.  An option given as a quoted string (`LittleEndian = "true";`): the
+visitor strips the quotes (`strings.Trim`), `specOf` did not and fell back to the default - `specOf.optionsOf` now strips them
+too (`optValueText`).  A checksum field with a written type that is also named after a MetaData entry took the entry's type
+in the visitor and the written one in `specOf` - the written type now wins in the Go code and in `Visit.metaTypeOf`.)
 
 Not covered yet: length fields, packet-typed fields, match fields, inline objects, RefMetaData entries. -/
 
@@ -217,15 +216,23 @@ example : ((((parseFull refTextB).bind fun c => (specOf c).map (schemaSig true))
             ("Name", "dyn", 0, 0, false, false), ("Crc", "sum:u32:\"CRC32\"", 0, 0, false, false)])) = true := by
   decide +kernel
 
-/-! ### The discrepancy the side condition `Agree.optRaw` excludes (kernel-evaluated; accepted without a diagnostic) -/
+/-! ### The two former discrepancies, now agreed on (kernel-evaluated; accepted without a diagnostic) -/
 
-/-- a quoted option value: the visitor (like `VisitPacket`, `strings.Trim(value, "\"")`) reads little-endian, `specOf` reads
-the default -/
+/-- a quoted option value: the visitor (like `VisitPacket`, `strings.Trim(value, "\"")`) and `specOf` both read little-endian -/
 example : ((parseFull "options {\n LittleEndian = \"true\";\n}\npacket P {\n u16 a,\n}\n").map fun c =>
     (match Visit.run c with | .ok s => (s.diags.isEmpty, (Visit.schemaOf s).map (·.cfg.le)) | .error _ => (false, none),
-     (specOf c).map (·.cfg.le))) = some ((true, some true), some false) := by decide +kernel
+     (specOf c).map (·.cfg.le))) = some ((true, some true), some true) := by decide +kernel
 
-/-- the former second discrepancy, now agreed on: a checksum field with a written type named after a MetaData entry has
+/-- the same for a quoted prefix type and a quoted pad character -/
+example : agree true "options {\n StringPrefixLenType = \"u8\";\n FixedStringPadChar = \"'0'\";\n}\npacket P {\n string a,\n char[3] b,\n}\n" =
+    some true := by decide +kernel
+
+/-- a quoted option value is the unquoted one, in the declarative reading itself -/
+theorem quoted_option_value (name eq t : Tok) (semi : Option Tok) (h : t.kind = .string) :
+    optValueText { name, eq, value := .tok t, semi } = trimDQuotes t.text := by
+  simp [optValueText, h]
+
+/-- a checksum field with a written type named after a MetaData entry has
 the written type in both readings -/
 example : agree true "MetaData M {\n u32 Sum,\n}\npacket P {\n u16 Sum @calculatedFrom(\"crc\"),\n}\n" = some true := by
   decide +kernel
